@@ -405,6 +405,7 @@ func runC14(c *core.Ctx) core.Meta {
 	checkSliceRemovalIdiom(c, st8, "R14.8", pcu, "a live wavefront leaves the pool with the finished one and is never scheduled again")
 	checkNoCompactionWhileRanging(c, "R14.12", 6, pcu, pemu)
 	checkVecMemPipelineSingleLane(c, "R14.14", pcu, NewPkgInfo(c, mi300aPkg), NewPkgInfo(c, r9nanoPkg), NewPkgInfo(c, saPkg))
+	checkRefusalNotReleased(c, pcu)
 	// ---------------- R14.13 the last-piece marker is only ever raised ----------------
 	st13 := c.Rule("R14.13", "the compute unit retires a memory instruction (decrements the wavefront's outstanding counters) when the response to a request with CanWaitForCoalesce == false arrives: the flag marks every piece of an instruction but the last. In the CU package the flag is only ever raised: every store to a CanWaitForCoalesce field stores the constant true (the pieces ahead of the last one, where the instruction's transactions are formed). A store of false - or of a computed value - anywhere else turns a middle piece into a last one: the instruction retires on that piece's response, s_waitcnt and s_endpgm pass with loads in flight, and the real last response drives the counter below zero", 3)
 	for _, fn := range pcu.Funcs {
